@@ -218,203 +218,203 @@ var hostTypes = []reflect.Type{
 var _ fs.FileMode
 var _ time.Time
 
-func (h *Host) Take000(v bool) bool { h.record(v); return v }
-func (h *Host) Ret000() bool { return h.ret.(bool) }
-func (h *Host) Take001(v int) int { h.record(v); return v }
-func (h *Host) Ret001() int { return h.ret.(int) }
-func (h *Host) Take002(v int8) int8 { h.record(v); return v }
-func (h *Host) Ret002() int8 { return h.ret.(int8) }
-func (h *Host) Take003(v int16) int16 { h.record(v); return v }
-func (h *Host) Ret003() int16 { return h.ret.(int16) }
-func (h *Host) Take004(v int32) int32 { h.record(v); return v }
-func (h *Host) Ret004() int32 { return h.ret.(int32) }
-func (h *Host) Take005(v int64) int64 { h.record(v); return v }
-func (h *Host) Ret005() int64 { return h.ret.(int64) }
-func (h *Host) Take006(v uint) uint { h.record(v); return v }
-func (h *Host) Ret006() uint { return h.ret.(uint) }
-func (h *Host) Take007(v uint8) uint8 { h.record(v); return v }
-func (h *Host) Ret007() uint8 { return h.ret.(uint8) }
-func (h *Host) Take008(v uint16) uint16 { h.record(v); return v }
-func (h *Host) Ret008() uint16 { return h.ret.(uint16) }
-func (h *Host) Take009(v uint32) uint32 { h.record(v); return v }
-func (h *Host) Ret009() uint32 { return h.ret.(uint32) }
-func (h *Host) Take010(v uint64) uint64 { h.record(v); return v }
-func (h *Host) Ret010() uint64 { return h.ret.(uint64) }
-func (h *Host) Take011(v float32) float32 { h.record(v); return v }
-func (h *Host) Ret011() float32 { return h.ret.(float32) }
-func (h *Host) Take012(v float64) float64 { h.record(v); return v }
-func (h *Host) Ret012() float64 { return h.ret.(float64) }
-func (h *Host) Take013(v string) string { h.record(v); return v }
-func (h *Host) Ret013() string { return h.ret.(string) }
-func (h *Host) Take014(v time.Time) time.Time { h.record(v); return v }
-func (h *Host) Ret014() time.Time { return h.ret.(time.Time) }
-func (h *Host) Take015(v error) error { h.record(v); return v }
-func (h *Host) Ret015() error { r, _ := h.ret.(error); return r }
-func (h *Host) Take016(v Stringer) Stringer { h.record(v); return v }
-func (h *Host) Ret016() Stringer { r, _ := h.ret.(Stringer); return r }
-func (h *Host) Take017(v MyBool) MyBool { h.record(v); return v }
-func (h *Host) Ret017() MyBool { return h.ret.(MyBool) }
-func (h *Host) Take018(v MyInt) MyInt { h.record(v); return v }
-func (h *Host) Ret018() MyInt { return h.ret.(MyInt) }
-func (h *Host) Take019(v MyInt8) MyInt8 { h.record(v); return v }
-func (h *Host) Ret019() MyInt8 { return h.ret.(MyInt8) }
-func (h *Host) Take020(v MyInt16) MyInt16 { h.record(v); return v }
-func (h *Host) Ret020() MyInt16 { return h.ret.(MyInt16) }
-func (h *Host) Take021(v MyInt32) MyInt32 { h.record(v); return v }
-func (h *Host) Ret021() MyInt32 { return h.ret.(MyInt32) }
-func (h *Host) Take022(v MyInt64) MyInt64 { h.record(v); return v }
-func (h *Host) Ret022() MyInt64 { return h.ret.(MyInt64) }
-func (h *Host) Take023(v MyUint) MyUint { h.record(v); return v }
-func (h *Host) Ret023() MyUint { return h.ret.(MyUint) }
-func (h *Host) Take024(v MyUint8) MyUint8 { h.record(v); return v }
-func (h *Host) Ret024() MyUint8 { return h.ret.(MyUint8) }
-func (h *Host) Take025(v MyUint16) MyUint16 { h.record(v); return v }
-func (h *Host) Ret025() MyUint16 { return h.ret.(MyUint16) }
-func (h *Host) Take026(v MyUint32) MyUint32 { h.record(v); return v }
-func (h *Host) Ret026() MyUint32 { return h.ret.(MyUint32) }
-func (h *Host) Take027(v MyUint64) MyUint64 { h.record(v); return v }
-func (h *Host) Ret027() MyUint64 { return h.ret.(MyUint64) }
-func (h *Host) Take028(v MyFloat32) MyFloat32 { h.record(v); return v }
-func (h *Host) Ret028() MyFloat32 { return h.ret.(MyFloat32) }
-func (h *Host) Take029(v MyFloat64) MyFloat64 { h.record(v); return v }
-func (h *Host) Ret029() MyFloat64 { return h.ret.(MyFloat64) }
-func (h *Host) Take030(v MyString) MyString { h.record(v); return v }
-func (h *Host) Ret030() MyString { return h.ret.(MyString) }
-func (h *Host) Take031(v time.Duration) time.Duration { h.record(v); return v }
-func (h *Host) Ret031() time.Duration { return h.ret.(time.Duration) }
-func (h *Host) Take032(v time.Month) time.Month { h.record(v); return v }
-func (h *Host) Ret032() time.Month { return h.ret.(time.Month) }
-func (h *Host) Take033(v time.Weekday) time.Weekday { h.record(v); return v }
-func (h *Host) Ret033() time.Weekday { return h.ret.(time.Weekday) }
-func (h *Host) Take034(v fs.FileMode) fs.FileMode { h.record(v); return v }
-func (h *Host) Ret034() fs.FileMode { return h.ret.(fs.FileMode) }
-func (h *Host) Take035(v MyBytes) MyBytes { h.record(v); return v }
-func (h *Host) Ret035() MyBytes { return h.ret.(MyBytes) }
-func (h *Host) Take036(v MySlice) MySlice { h.record(v); return v }
-func (h *Host) Ret036() MySlice { return h.ret.(MySlice) }
-func (h *Host) Take037(v MyStrs) MyStrs { h.record(v); return v }
-func (h *Host) Ret037() MyStrs { return h.ret.(MyStrs) }
-func (h *Host) Take038(v MyMap) MyMap { h.record(v); return v }
-func (h *Host) Ret038() MyMap { return h.ret.(MyMap) }
-func (h *Host) Take039(v MyArr) MyArr { h.record(v); return v }
-func (h *Host) Ret039() MyArr { return h.ret.(MyArr) }
-func (h *Host) Take040(v MyPtr) MyPtr { h.record(v); return v }
-func (h *Host) Ret040() MyPtr { return h.ret.(MyPtr) }
-func (h *Host) Take041(v MyAny) MyAny { h.record(v); return v }
-func (h *Host) Ret041() MyAny { r, _ := h.ret.(MyAny); return r }
-func (h *Host) Take042(v MyDurs) MyDurs { h.record(v); return v }
-func (h *Host) Ret042() MyDurs { return h.ret.(MyDurs) }
-func (h *Host) Take043(v MyNamedM) MyNamedM { h.record(v); return v }
-func (h *Host) Ret043() MyNamedM { return h.ret.(MyNamedM) }
-func (h *Host) Take044(v MyInner) MyInner { h.record(v); return v }
-func (h *Host) Ret044() MyInner { return h.ret.(MyInner) }
-func (h *Host) Take045(v MyStruct) MyStruct { h.record(v); return v }
-func (h *Host) Ret045() MyStruct { return h.ret.(MyStruct) }
-func (h *Host) Take046(v MyNode) MyNode { h.record(v); return v }
-func (h *Host) Ret046() MyNode { return h.ret.(MyNode) }
-func (h *Host) Take047(v MyNamedS) MyNamedS { h.record(v); return v }
-func (h *Host) Ret047() MyNamedS { return h.ret.(MyNamedS) }
-func (h *Host) Take048(v *MyInner) *MyInner { h.record(v); return v }
-func (h *Host) Ret048() *MyInner { return h.ret.(*MyInner) }
-func (h *Host) Take049(v *MyStruct) *MyStruct { h.record(v); return v }
-func (h *Host) Ret049() *MyStruct { return h.ret.(*MyStruct) }
-func (h *Host) Take050(v *MyNode) *MyNode { h.record(v); return v }
-func (h *Host) Ret050() *MyNode { return h.ret.(*MyNode) }
-func (h *Host) Take051(v *MyNamedS) *MyNamedS { h.record(v); return v }
-func (h *Host) Ret051() *MyNamedS { return h.ret.(*MyNamedS) }
-func (h *Host) Take052(v []MyInner) []MyInner { h.record(v); return v }
-func (h *Host) Ret052() []MyInner { return h.ret.([]MyInner) }
-func (h *Host) Take053(v []*MyInner) []*MyInner { h.record(v); return v }
-func (h *Host) Ret053() []*MyInner { return h.ret.([]*MyInner) }
-func (h *Host) Take054(v map[string]MyInner) map[string]MyInner { h.record(v); return v }
-func (h *Host) Ret054() map[string]MyInner { return h.ret.(map[string]MyInner) }
-func (h *Host) Take055(v map[string]*MyInner) map[string]*MyInner { h.record(v); return v }
-func (h *Host) Ret055() map[string]*MyInner { return h.ret.(map[string]*MyInner) }
-func (h *Host) Take056(v []int8) []int8 { h.record(v); return v }
-func (h *Host) Ret056() []int8 { return h.ret.([]int8) }
-func (h *Host) Take057(v []uint16) []uint16 { h.record(v); return v }
-func (h *Host) Ret057() []uint16 { return h.ret.([]uint16) }
-func (h *Host) Take058(v []int64) []int64 { h.record(v); return v }
-func (h *Host) Ret058() []int64 { return h.ret.([]int64) }
-func (h *Host) Take059(v []uint64) []uint64 { h.record(v); return v }
-func (h *Host) Ret059() []uint64 { return h.ret.([]uint64) }
-func (h *Host) Take060(v []string) []string { h.record(v); return v }
-func (h *Host) Ret060() []string { return h.ret.([]string) }
-func (h *Host) Take061(v []bool) []bool { h.record(v); return v }
-func (h *Host) Ret061() []bool { return h.ret.([]bool) }
-func (h *Host) Take062(v []float32) []float32 { h.record(v); return v }
-func (h *Host) Ret062() []float32 { return h.ret.([]float32) }
-func (h *Host) Take063(v []float64) []float64 { h.record(v); return v }
-func (h *Host) Ret063() []float64 { return h.ret.([]float64) }
-func (h *Host) Take064(v []byte) []byte { h.record(v); return v }
-func (h *Host) Ret064() []byte { return h.ret.([]byte) }
-func (h *Host) Take065(v [][]byte) [][]byte { h.record(v); return v }
-func (h *Host) Ret065() [][]byte { return h.ret.([][]byte) }
-func (h *Host) Take066(v []any) []any { h.record(v); return v }
-func (h *Host) Ret066() []any { return h.ret.([]any) }
-func (h *Host) Take067(v []*int) []*int { h.record(v); return v }
-func (h *Host) Ret067() []*int { return h.ret.([]*int) }
-func (h *Host) Take068(v [][]int) [][]int { h.record(v); return v }
-func (h *Host) Ret068() [][]int { return h.ret.([][]int) }
-func (h *Host) Take069(v []MyInt8) []MyInt8 { h.record(v); return v }
-func (h *Host) Ret069() []MyInt8 { return h.ret.([]MyInt8) }
-func (h *Host) Take070(v []time.Duration) []time.Duration { h.record(v); return v }
-func (h *Host) Ret070() []time.Duration { return h.ret.([]time.Duration) }
-func (h *Host) Take071(v []time.Time) []time.Time { h.record(v); return v }
-func (h *Host) Ret071() []time.Time { return h.ret.([]time.Time) }
-func (h *Host) Take072(v []map[string]int) []map[string]int { h.record(v); return v }
-func (h *Host) Ret072() []map[string]int { return h.ret.([]map[string]int) }
-func (h *Host) Take073(v map[string]int8) map[string]int8 { h.record(v); return v }
-func (h *Host) Ret073() map[string]int8 { return h.ret.(map[string]int8) }
-func (h *Host) Take074(v map[string]uint64) map[string]uint64 { h.record(v); return v }
-func (h *Host) Ret074() map[string]uint64 { return h.ret.(map[string]uint64) }
-func (h *Host) Take075(v map[string]string) map[string]string { h.record(v); return v }
-func (h *Host) Ret075() map[string]string { return h.ret.(map[string]string) }
-func (h *Host) Take076(v map[string]float32) map[string]float32 { h.record(v); return v }
-func (h *Host) Ret076() map[string]float32 { return h.ret.(map[string]float32) }
-func (h *Host) Take077(v map[string]any) map[string]any { h.record(v); return v }
-func (h *Host) Ret077() map[string]any { return h.ret.(map[string]any) }
-func (h *Host) Take078(v map[string][]string) map[string][]string { h.record(v); return v }
-func (h *Host) Ret078() map[string][]string { return h.ret.(map[string][]string) }
-func (h *Host) Take079(v map[string]MyString) map[string]MyString { h.record(v); return v }
-func (h *Host) Ret079() map[string]MyString { return h.ret.(map[string]MyString) }
-func (h *Host) Take080(v map[string]*int) map[string]*int { h.record(v); return v }
-func (h *Host) Ret080() map[string]*int { return h.ret.(map[string]*int) }
+func (h *Host) Take000(v bool) bool                                           { h.record(v); return v }
+func (h *Host) Ret000() bool                                                  { return h.ret.(bool) }
+func (h *Host) Take001(v int) int                                             { h.record(v); return v }
+func (h *Host) Ret001() int                                                   { return h.ret.(int) }
+func (h *Host) Take002(v int8) int8                                           { h.record(v); return v }
+func (h *Host) Ret002() int8                                                  { return h.ret.(int8) }
+func (h *Host) Take003(v int16) int16                                         { h.record(v); return v }
+func (h *Host) Ret003() int16                                                 { return h.ret.(int16) }
+func (h *Host) Take004(v int32) int32                                         { h.record(v); return v }
+func (h *Host) Ret004() int32                                                 { return h.ret.(int32) }
+func (h *Host) Take005(v int64) int64                                         { h.record(v); return v }
+func (h *Host) Ret005() int64                                                 { return h.ret.(int64) }
+func (h *Host) Take006(v uint) uint                                           { h.record(v); return v }
+func (h *Host) Ret006() uint                                                  { return h.ret.(uint) }
+func (h *Host) Take007(v uint8) uint8                                         { h.record(v); return v }
+func (h *Host) Ret007() uint8                                                 { return h.ret.(uint8) }
+func (h *Host) Take008(v uint16) uint16                                       { h.record(v); return v }
+func (h *Host) Ret008() uint16                                                { return h.ret.(uint16) }
+func (h *Host) Take009(v uint32) uint32                                       { h.record(v); return v }
+func (h *Host) Ret009() uint32                                                { return h.ret.(uint32) }
+func (h *Host) Take010(v uint64) uint64                                       { h.record(v); return v }
+func (h *Host) Ret010() uint64                                                { return h.ret.(uint64) }
+func (h *Host) Take011(v float32) float32                                     { h.record(v); return v }
+func (h *Host) Ret011() float32                                               { return h.ret.(float32) }
+func (h *Host) Take012(v float64) float64                                     { h.record(v); return v }
+func (h *Host) Ret012() float64                                               { return h.ret.(float64) }
+func (h *Host) Take013(v string) string                                       { h.record(v); return v }
+func (h *Host) Ret013() string                                                { return h.ret.(string) }
+func (h *Host) Take014(v time.Time) time.Time                                 { h.record(v); return v }
+func (h *Host) Ret014() time.Time                                             { return h.ret.(time.Time) }
+func (h *Host) Take015(v error) error                                         { h.record(v); return v }
+func (h *Host) Ret015() error                                                 { r, _ := h.ret.(error); return r }
+func (h *Host) Take016(v Stringer) Stringer                                   { h.record(v); return v }
+func (h *Host) Ret016() Stringer                                              { r, _ := h.ret.(Stringer); return r }
+func (h *Host) Take017(v MyBool) MyBool                                       { h.record(v); return v }
+func (h *Host) Ret017() MyBool                                                { return h.ret.(MyBool) }
+func (h *Host) Take018(v MyInt) MyInt                                         { h.record(v); return v }
+func (h *Host) Ret018() MyInt                                                 { return h.ret.(MyInt) }
+func (h *Host) Take019(v MyInt8) MyInt8                                       { h.record(v); return v }
+func (h *Host) Ret019() MyInt8                                                { return h.ret.(MyInt8) }
+func (h *Host) Take020(v MyInt16) MyInt16                                     { h.record(v); return v }
+func (h *Host) Ret020() MyInt16                                               { return h.ret.(MyInt16) }
+func (h *Host) Take021(v MyInt32) MyInt32                                     { h.record(v); return v }
+func (h *Host) Ret021() MyInt32                                               { return h.ret.(MyInt32) }
+func (h *Host) Take022(v MyInt64) MyInt64                                     { h.record(v); return v }
+func (h *Host) Ret022() MyInt64                                               { return h.ret.(MyInt64) }
+func (h *Host) Take023(v MyUint) MyUint                                       { h.record(v); return v }
+func (h *Host) Ret023() MyUint                                                { return h.ret.(MyUint) }
+func (h *Host) Take024(v MyUint8) MyUint8                                     { h.record(v); return v }
+func (h *Host) Ret024() MyUint8                                               { return h.ret.(MyUint8) }
+func (h *Host) Take025(v MyUint16) MyUint16                                   { h.record(v); return v }
+func (h *Host) Ret025() MyUint16                                              { return h.ret.(MyUint16) }
+func (h *Host) Take026(v MyUint32) MyUint32                                   { h.record(v); return v }
+func (h *Host) Ret026() MyUint32                                              { return h.ret.(MyUint32) }
+func (h *Host) Take027(v MyUint64) MyUint64                                   { h.record(v); return v }
+func (h *Host) Ret027() MyUint64                                              { return h.ret.(MyUint64) }
+func (h *Host) Take028(v MyFloat32) MyFloat32                                 { h.record(v); return v }
+func (h *Host) Ret028() MyFloat32                                             { return h.ret.(MyFloat32) }
+func (h *Host) Take029(v MyFloat64) MyFloat64                                 { h.record(v); return v }
+func (h *Host) Ret029() MyFloat64                                             { return h.ret.(MyFloat64) }
+func (h *Host) Take030(v MyString) MyString                                   { h.record(v); return v }
+func (h *Host) Ret030() MyString                                              { return h.ret.(MyString) }
+func (h *Host) Take031(v time.Duration) time.Duration                         { h.record(v); return v }
+func (h *Host) Ret031() time.Duration                                         { return h.ret.(time.Duration) }
+func (h *Host) Take032(v time.Month) time.Month                               { h.record(v); return v }
+func (h *Host) Ret032() time.Month                                            { return h.ret.(time.Month) }
+func (h *Host) Take033(v time.Weekday) time.Weekday                           { h.record(v); return v }
+func (h *Host) Ret033() time.Weekday                                          { return h.ret.(time.Weekday) }
+func (h *Host) Take034(v fs.FileMode) fs.FileMode                             { h.record(v); return v }
+func (h *Host) Ret034() fs.FileMode                                           { return h.ret.(fs.FileMode) }
+func (h *Host) Take035(v MyBytes) MyBytes                                     { h.record(v); return v }
+func (h *Host) Ret035() MyBytes                                               { return h.ret.(MyBytes) }
+func (h *Host) Take036(v MySlice) MySlice                                     { h.record(v); return v }
+func (h *Host) Ret036() MySlice                                               { return h.ret.(MySlice) }
+func (h *Host) Take037(v MyStrs) MyStrs                                       { h.record(v); return v }
+func (h *Host) Ret037() MyStrs                                                { return h.ret.(MyStrs) }
+func (h *Host) Take038(v MyMap) MyMap                                         { h.record(v); return v }
+func (h *Host) Ret038() MyMap                                                 { return h.ret.(MyMap) }
+func (h *Host) Take039(v MyArr) MyArr                                         { h.record(v); return v }
+func (h *Host) Ret039() MyArr                                                 { return h.ret.(MyArr) }
+func (h *Host) Take040(v MyPtr) MyPtr                                         { h.record(v); return v }
+func (h *Host) Ret040() MyPtr                                                 { return h.ret.(MyPtr) }
+func (h *Host) Take041(v MyAny) MyAny                                         { h.record(v); return v }
+func (h *Host) Ret041() MyAny                                                 { r, _ := h.ret.(MyAny); return r }
+func (h *Host) Take042(v MyDurs) MyDurs                                       { h.record(v); return v }
+func (h *Host) Ret042() MyDurs                                                { return h.ret.(MyDurs) }
+func (h *Host) Take043(v MyNamedM) MyNamedM                                   { h.record(v); return v }
+func (h *Host) Ret043() MyNamedM                                              { return h.ret.(MyNamedM) }
+func (h *Host) Take044(v MyInner) MyInner                                     { h.record(v); return v }
+func (h *Host) Ret044() MyInner                                               { return h.ret.(MyInner) }
+func (h *Host) Take045(v MyStruct) MyStruct                                   { h.record(v); return v }
+func (h *Host) Ret045() MyStruct                                              { return h.ret.(MyStruct) }
+func (h *Host) Take046(v MyNode) MyNode                                       { h.record(v); return v }
+func (h *Host) Ret046() MyNode                                                { return h.ret.(MyNode) }
+func (h *Host) Take047(v MyNamedS) MyNamedS                                   { h.record(v); return v }
+func (h *Host) Ret047() MyNamedS                                              { return h.ret.(MyNamedS) }
+func (h *Host) Take048(v *MyInner) *MyInner                                   { h.record(v); return v }
+func (h *Host) Ret048() *MyInner                                              { return h.ret.(*MyInner) }
+func (h *Host) Take049(v *MyStruct) *MyStruct                                 { h.record(v); return v }
+func (h *Host) Ret049() *MyStruct                                             { return h.ret.(*MyStruct) }
+func (h *Host) Take050(v *MyNode) *MyNode                                     { h.record(v); return v }
+func (h *Host) Ret050() *MyNode                                               { return h.ret.(*MyNode) }
+func (h *Host) Take051(v *MyNamedS) *MyNamedS                                 { h.record(v); return v }
+func (h *Host) Ret051() *MyNamedS                                             { return h.ret.(*MyNamedS) }
+func (h *Host) Take052(v []MyInner) []MyInner                                 { h.record(v); return v }
+func (h *Host) Ret052() []MyInner                                             { return h.ret.([]MyInner) }
+func (h *Host) Take053(v []*MyInner) []*MyInner                               { h.record(v); return v }
+func (h *Host) Ret053() []*MyInner                                            { return h.ret.([]*MyInner) }
+func (h *Host) Take054(v map[string]MyInner) map[string]MyInner               { h.record(v); return v }
+func (h *Host) Ret054() map[string]MyInner                                    { return h.ret.(map[string]MyInner) }
+func (h *Host) Take055(v map[string]*MyInner) map[string]*MyInner             { h.record(v); return v }
+func (h *Host) Ret055() map[string]*MyInner                                   { return h.ret.(map[string]*MyInner) }
+func (h *Host) Take056(v []int8) []int8                                       { h.record(v); return v }
+func (h *Host) Ret056() []int8                                                { return h.ret.([]int8) }
+func (h *Host) Take057(v []uint16) []uint16                                   { h.record(v); return v }
+func (h *Host) Ret057() []uint16                                              { return h.ret.([]uint16) }
+func (h *Host) Take058(v []int64) []int64                                     { h.record(v); return v }
+func (h *Host) Ret058() []int64                                               { return h.ret.([]int64) }
+func (h *Host) Take059(v []uint64) []uint64                                   { h.record(v); return v }
+func (h *Host) Ret059() []uint64                                              { return h.ret.([]uint64) }
+func (h *Host) Take060(v []string) []string                                   { h.record(v); return v }
+func (h *Host) Ret060() []string                                              { return h.ret.([]string) }
+func (h *Host) Take061(v []bool) []bool                                       { h.record(v); return v }
+func (h *Host) Ret061() []bool                                                { return h.ret.([]bool) }
+func (h *Host) Take062(v []float32) []float32                                 { h.record(v); return v }
+func (h *Host) Ret062() []float32                                             { return h.ret.([]float32) }
+func (h *Host) Take063(v []float64) []float64                                 { h.record(v); return v }
+func (h *Host) Ret063() []float64                                             { return h.ret.([]float64) }
+func (h *Host) Take064(v []byte) []byte                                       { h.record(v); return v }
+func (h *Host) Ret064() []byte                                                { return h.ret.([]byte) }
+func (h *Host) Take065(v [][]byte) [][]byte                                   { h.record(v); return v }
+func (h *Host) Ret065() [][]byte                                              { return h.ret.([][]byte) }
+func (h *Host) Take066(v []any) []any                                         { h.record(v); return v }
+func (h *Host) Ret066() []any                                                 { return h.ret.([]any) }
+func (h *Host) Take067(v []*int) []*int                                       { h.record(v); return v }
+func (h *Host) Ret067() []*int                                                { return h.ret.([]*int) }
+func (h *Host) Take068(v [][]int) [][]int                                     { h.record(v); return v }
+func (h *Host) Ret068() [][]int                                               { return h.ret.([][]int) }
+func (h *Host) Take069(v []MyInt8) []MyInt8                                   { h.record(v); return v }
+func (h *Host) Ret069() []MyInt8                                              { return h.ret.([]MyInt8) }
+func (h *Host) Take070(v []time.Duration) []time.Duration                     { h.record(v); return v }
+func (h *Host) Ret070() []time.Duration                                       { return h.ret.([]time.Duration) }
+func (h *Host) Take071(v []time.Time) []time.Time                             { h.record(v); return v }
+func (h *Host) Ret071() []time.Time                                           { return h.ret.([]time.Time) }
+func (h *Host) Take072(v []map[string]int) []map[string]int                   { h.record(v); return v }
+func (h *Host) Ret072() []map[string]int                                      { return h.ret.([]map[string]int) }
+func (h *Host) Take073(v map[string]int8) map[string]int8                     { h.record(v); return v }
+func (h *Host) Ret073() map[string]int8                                       { return h.ret.(map[string]int8) }
+func (h *Host) Take074(v map[string]uint64) map[string]uint64                 { h.record(v); return v }
+func (h *Host) Ret074() map[string]uint64                                     { return h.ret.(map[string]uint64) }
+func (h *Host) Take075(v map[string]string) map[string]string                 { h.record(v); return v }
+func (h *Host) Ret075() map[string]string                                     { return h.ret.(map[string]string) }
+func (h *Host) Take076(v map[string]float32) map[string]float32               { h.record(v); return v }
+func (h *Host) Ret076() map[string]float32                                    { return h.ret.(map[string]float32) }
+func (h *Host) Take077(v map[string]any) map[string]any                       { h.record(v); return v }
+func (h *Host) Ret077() map[string]any                                        { return h.ret.(map[string]any) }
+func (h *Host) Take078(v map[string][]string) map[string][]string             { h.record(v); return v }
+func (h *Host) Ret078() map[string][]string                                   { return h.ret.(map[string][]string) }
+func (h *Host) Take079(v map[string]MyString) map[string]MyString             { h.record(v); return v }
+func (h *Host) Ret079() map[string]MyString                                   { return h.ret.(map[string]MyString) }
+func (h *Host) Take080(v map[string]*int) map[string]*int                     { h.record(v); return v }
+func (h *Host) Ret080() map[string]*int                                       { return h.ret.(map[string]*int) }
 func (h *Host) Take081(v map[string]map[string]int) map[string]map[string]int { h.record(v); return v }
-func (h *Host) Ret081() map[string]map[string]int { return h.ret.(map[string]map[string]int) }
-func (h *Host) Take082(v *int) *int { h.record(v); return v }
-func (h *Host) Ret082() *int { return h.ret.(*int) }
-func (h *Host) Take083(v *int8) *int8 { h.record(v); return v }
-func (h *Host) Ret083() *int8 { return h.ret.(*int8) }
-func (h *Host) Take084(v *uint64) *uint64 { h.record(v); return v }
-func (h *Host) Ret084() *uint64 { return h.ret.(*uint64) }
-func (h *Host) Take085(v *string) *string { h.record(v); return v }
-func (h *Host) Ret085() *string { return h.ret.(*string) }
-func (h *Host) Take086(v *float32) *float32 { h.record(v); return v }
-func (h *Host) Ret086() *float32 { return h.ret.(*float32) }
-func (h *Host) Take087(v *bool) *bool { h.record(v); return v }
-func (h *Host) Ret087() *bool { return h.ret.(*bool) }
-func (h *Host) Take088(v *MyInt8) *MyInt8 { h.record(v); return v }
-func (h *Host) Ret088() *MyInt8 { return h.ret.(*MyInt8) }
-func (h *Host) Take089(v *time.Time) *time.Time { h.record(v); return v }
-func (h *Host) Ret089() *time.Time { return h.ret.(*time.Time) }
-func (h *Host) Take090(v *time.Duration) *time.Duration { h.record(v); return v }
-func (h *Host) Ret090() *time.Duration { return h.ret.(*time.Duration) }
-func (h *Host) Take091(v *[]int) *[]int { h.record(v); return v }
-func (h *Host) Ret091() *[]int { return h.ret.(*[]int) }
-func (h *Host) Take092(v *map[string]int) *map[string]int { h.record(v); return v }
-func (h *Host) Ret092() *map[string]int { return h.ret.(*map[string]int) }
-func (h *Host) Take093(v **int) **int { h.record(v); return v }
-func (h *Host) Ret093() **int { return h.ret.(**int) }
-func (h *Host) Take094(v *any) *any { h.record(v); return v }
-func (h *Host) Ret094() *any { return h.ret.(*any) }
-func (h *Host) Take095(v [2]int8) [2]int8 { h.record(v); return v }
-func (h *Host) Ret095() [2]int8 { return h.ret.([2]int8) }
-func (h *Host) Take096(v [3]string) [3]string { h.record(v); return v }
-func (h *Host) Ret096() [3]string { return h.ret.([3]string) }
-func (h *Host) Take097(v [0]int) [0]int { h.record(v); return v }
-func (h *Host) Ret097() [0]int { return h.ret.([0]int) }
-func (h *Host) Take098(v [2][]int) [2][]int { h.record(v); return v }
-func (h *Host) Ret098() [2][]int { return h.ret.([2][]int) }
-func (h *Host) Take099(v [2]*int) [2]*int { h.record(v); return v }
-func (h *Host) Ret099() [2]*int { return h.ret.([2]*int) }
+func (h *Host) Ret081() map[string]map[string]int                             { return h.ret.(map[string]map[string]int) }
+func (h *Host) Take082(v *int) *int                                           { h.record(v); return v }
+func (h *Host) Ret082() *int                                                  { return h.ret.(*int) }
+func (h *Host) Take083(v *int8) *int8                                         { h.record(v); return v }
+func (h *Host) Ret083() *int8                                                 { return h.ret.(*int8) }
+func (h *Host) Take084(v *uint64) *uint64                                     { h.record(v); return v }
+func (h *Host) Ret084() *uint64                                               { return h.ret.(*uint64) }
+func (h *Host) Take085(v *string) *string                                     { h.record(v); return v }
+func (h *Host) Ret085() *string                                               { return h.ret.(*string) }
+func (h *Host) Take086(v *float32) *float32                                   { h.record(v); return v }
+func (h *Host) Ret086() *float32                                              { return h.ret.(*float32) }
+func (h *Host) Take087(v *bool) *bool                                         { h.record(v); return v }
+func (h *Host) Ret087() *bool                                                 { return h.ret.(*bool) }
+func (h *Host) Take088(v *MyInt8) *MyInt8                                     { h.record(v); return v }
+func (h *Host) Ret088() *MyInt8                                               { return h.ret.(*MyInt8) }
+func (h *Host) Take089(v *time.Time) *time.Time                               { h.record(v); return v }
+func (h *Host) Ret089() *time.Time                                            { return h.ret.(*time.Time) }
+func (h *Host) Take090(v *time.Duration) *time.Duration                       { h.record(v); return v }
+func (h *Host) Ret090() *time.Duration                                        { return h.ret.(*time.Duration) }
+func (h *Host) Take091(v *[]int) *[]int                                       { h.record(v); return v }
+func (h *Host) Ret091() *[]int                                                { return h.ret.(*[]int) }
+func (h *Host) Take092(v *map[string]int) *map[string]int                     { h.record(v); return v }
+func (h *Host) Ret092() *map[string]int                                       { return h.ret.(*map[string]int) }
+func (h *Host) Take093(v **int) **int                                         { h.record(v); return v }
+func (h *Host) Ret093() **int                                                 { return h.ret.(**int) }
+func (h *Host) Take094(v *any) *any                                           { h.record(v); return v }
+func (h *Host) Ret094() *any                                                  { return h.ret.(*any) }
+func (h *Host) Take095(v [2]int8) [2]int8                                     { h.record(v); return v }
+func (h *Host) Ret095() [2]int8                                               { return h.ret.([2]int8) }
+func (h *Host) Take096(v [3]string) [3]string                                 { h.record(v); return v }
+func (h *Host) Ret096() [3]string                                             { return h.ret.([3]string) }
+func (h *Host) Take097(v [0]int) [0]int                                       { h.record(v); return v }
+func (h *Host) Ret097() [0]int                                                { return h.ret.([0]int) }
+func (h *Host) Take098(v [2][]int) [2][]int                                   { h.record(v); return v }
+func (h *Host) Ret098() [2][]int                                              { return h.ret.([2][]int) }
+func (h *Host) Take099(v [2]*int) [2]*int                                     { h.record(v); return v }
+func (h *Host) Ret099() [2]*int                                               { return h.ret.([2]*int) }
